@@ -186,6 +186,10 @@ class TxnaExpr(LeafExpr):
             )
         if isinstance(index, Expr):
             require_type(index, TealType.uint64)
+        elif index < 0 or index > 255:
+            raise TealInputError(
+                f"Invalid array index {index}, should be in [0, 255] to be used as an immediate"
+            )
 
     def __init__(
         self,
